@@ -308,17 +308,53 @@ func runHashBytes(c *core.Ctx) {
 			c.Check(okS, fmt.Sprintf("%s:size#%d", base, i+1), ins.Pos(), "the index entry inserted at %s records Size = len(hashed bytes): %v", c.P.Pos(ins.Pos()), okS)
 		}
 		// expected digest from the request
-		var parsed []*ssa.Call
+		// a digest the request declares: result 0 of digest.Parse, or the digest-typed result of a helper of the module some
+		// return of which hands out such a parse (the parsing of query parameter and reference moved into a helper)
+		type reqDig struct {
+			call *ssa.Call
+			idx  int
+		}
+		var parsed []reqDig
+		isParsed := func(pc *ssa.Call, idx int) bool {
+			for _, p := range parsed {
+				if p.call == pc && p.idx == idx {
+					return true
+				}
+			}
+			return false
+		}
 		an.Calls(hs.fn, func(call ssa.CallInstruction) {
-			if cc, ok := call.(*ssa.Call); ok && an.IsFunc(call, digestPkg, "Parse") {
-				parsed = append(parsed, cc)
+			cc, ok := call.(*ssa.Call)
+			if !ok {
+				return
+			}
+			if an.IsFunc(call, digestPkg, "Parse") {
+				parsed = append(parsed, reqDig{cc, 0})
+				return
+			}
+			h := cc.Call.StaticCallee()
+			if h == nil || !strings.HasPrefix(core.FuncPkgPath(h), c.P.Module) || cc.Referrers() == nil {
+				return
+			}
+			for _, ref := range *cc.Referrers() {
+				ex, ok := ref.(*ssa.Extract)
+				if !ok || !isNamed(ex.Type(), digestPkg, "Digest") {
+					continue
+				}
+				for _, hr := range an.HelperReturns(ex, nil) {
+					for _, o := range an.Origins(hr.Val) {
+						if pc, idx := an.CallOf(o); pc != nil && idx == 0 && an.IsFunc(pc, digestPkg, "Parse") && !isParsed(cc, ex.Index) {
+							parsed = append(parsed, reqDig{cc, ex.Index})
+						}
+					}
+				}
 			}
 		})
 		if len(parsed) == 0 {
 			continue
 		}
 		okCmp, found := false, false
-		comparedParses := map[*ssa.Call]bool{}
+		comparedParses := map[reqDig]bool{}
 		for _, b := range hs.fn.Blocks {
 			ifi := an.BlockIf(b)
 			if ifi == nil {
@@ -339,9 +375,9 @@ func runHashBytes(c *core.Ctx) {
 			}
 			fromParse := false
 			for _, o := range an.Origins(other) {
-				if pc, idx := an.CallOf(o); pc != nil && idx == 0 && an.IsFunc(pc, digestPkg, "Parse") {
+				if pc, idx := an.CallOf(o); pc != nil && isParsed(pc, idx) {
 					fromParse = true
-					comparedParses[pc] = true
+					comparedParses[reqDig{pc, idx}] = true
 				}
 			}
 			if !fromParse {
@@ -367,7 +403,7 @@ func runHashBytes(c *core.Ctx) {
 			if bi, ei, eqTrue, ok := helperCompares(hs.helper); ok && ei < len(hs.from.Call.Args) {
 				fromParse := false
 				for _, o := range an.Origins(hs.from.Call.Args[ei]) {
-					if pc, idx := an.CallOf(o); pc != nil && idx == 0 && an.IsFunc(pc, digestPkg, "Parse") {
+					if pc, idx := an.CallOf(o); pc != nil && isParsed(pc, idx) {
 						fromParse = true
 					}
 				}
@@ -405,20 +441,20 @@ func runHashBytes(c *core.Ctx) {
 		// the body to
 		var uncompared *ssa.Call
 		if found && hs.helper == nil {
-			for _, pc := range parsed {
-				if comparedParses[pc] {
+			for _, rd := range parsed {
+				if comparedParses[rd] {
 					continue
 				}
 				used := false
-				if pc.Referrers() != nil {
-					for _, ref := range *pc.Referrers() {
-						if ex, ok := ref.(*ssa.Extract); ok && ex.Index == 0 && ex.Referrers() != nil && len(*ex.Referrers()) > 0 {
+				if rd.call.Referrers() != nil {
+					for _, ref := range *rd.call.Referrers() {
+						if ex, ok := ref.(*ssa.Extract); ok && ex.Index == rd.idx && ex.Referrers() != nil && len(*ex.Referrers()) > 0 {
 							used = true
 						}
 					}
 				}
 				if used && uncompared == nil {
-					uncompared = pc
+					uncompared = rd.call
 				}
 			}
 		}
@@ -640,10 +676,133 @@ func init() {
 
 // referenceWins: in the push handler, on every path on which the reference failed the tag grammar, the
 // digest the computed digest is compared with is the parse of that reference — a query parameter must not
-// be able to replace it.
+// be able to replace it.  The grammar test and the parses may sit in the handler itself or in a parsing helper of the
+// module the handler calls (tag, digest, … := parseRef(arg)); then the helper is judged at its returns (on every return
+// reached on a ‘not a tag’ path that is not a refusal, the digest result is the parse of the tested parameter) and the
+// handler is judged with ‘may be not a tag’ holding from the call until the ‘tag result != ""’ edge.
 type rwState struct {
 	nonTag bool
-	phis   [4]int8 // origin id currently flowing through each tracked φ (0 unknown)
+	phis   [8]int8 // origin id currently flowing through each tracked φ (0 unknown)
+}
+
+type rwSink struct {
+	at  ssa.Instruction
+	val ssa.Value
+}
+
+// refWinsPaths walks fn; the state's nonTag flag is maintained by onInstr/onEdge; at every sink reached with nonTag set
+// the origin of the sink's value (through the φs along that very path) must be 1.  It reports whether some sink fails
+// and which sinks were reached with nonTag set.
+func refWinsPaths(fn *ssa.Function, sinks []rwSink, originID func(ssa.Value) int8,
+	onInstr func(s *rwState, in ssa.Instruction), onEdge func(s *rwState, from *ssa.BasicBlock, succ int)) (bad bool, nonTagAt map[ssa.Instruction]bool) {
+	nonTagAt = map[ssa.Instruction]bool{}
+	var phis []*ssa.Phi
+	var collect func(v ssa.Value)
+	collect = func(v ssa.Value) {
+		if p, ok := v.(*ssa.Phi); ok {
+			for _, q := range phis {
+				if q == p {
+					return
+				}
+			}
+			if len(phis) < 8 {
+				phis = append(phis, p)
+				for _, e := range p.Edges {
+					collect(e)
+				}
+			}
+		}
+	}
+	for _, sk := range sinks {
+		collect(sk.val)
+	}
+	phiIdx := func(v ssa.Value) int {
+		for i, p := range phis {
+			if ssa.Value(p) == v {
+				return i
+			}
+		}
+		return -1
+	}
+	an.Paths(an.PathSpec[rwState]{Fn: fn, Init: rwState{},
+		Instr: func(s rwState, in ssa.Instruction) []rwState {
+			if onInstr != nil {
+				onInstr(&s, in)
+			}
+			if s.nonTag {
+				for _, sk := range sinks {
+					if sk.at != in {
+						continue
+					}
+					nonTagAt[in] = true
+					var cur int8
+					if i := phiIdx(sk.val); i >= 0 {
+						cur = s.phis[i]
+					} else {
+						cur = originID(sk.val)
+					}
+					if cur != 1 {
+						bad = true
+					}
+				}
+			}
+			return []rwState{s}
+		},
+		Edge: func(s rwState, from *ssa.BasicBlock, succ int) (rwState, bool) {
+			if onEdge != nil {
+				onEdge(&s, from, succ)
+			}
+			tgt := from.Succs[succ]
+			predIdx := -1
+			for i, p := range tgt.Preds {
+				if p == from {
+					predIdx = i
+				}
+			}
+			if predIdx >= 0 {
+				old := s
+				for i, p := range phis {
+					if p.Block() != tgt {
+						continue
+					}
+					e := p.Edges[predIdx]
+					if j := phiIdx(e); j >= 0 {
+						s.phis[i] = old.phis[j]
+					} else {
+						s.phis[i] = originID(e)
+					}
+				}
+			}
+			return s, true
+		}})
+	return bad, nonTagAt
+}
+
+// grammarTest: the test of a value against the tag grammar in fn (the last one found).
+func grammarTest(r *Roles, fn *ssa.Function) (grammarIf *ssa.If, grammarTrue int, refVal ssa.Value) {
+	for _, b := range fn.Blocks {
+		ifi := an.BlockIf(b)
+		if ifi == nil {
+			continue
+		}
+		if call, trueSucc, ok := an.BoolCallTest(ifi); ok && an.IsMethod(call, "regexp", "Regexp", "MatchString") && an.IsGlobalLoad(call.Call.Args[0], r.TypesPath, "RefTagRE") {
+			grammarIf, grammarTrue, refVal = ifi, trueSucc, an.Origin(call.Call.Args[1])
+		}
+	}
+	return
+}
+
+// refusalReturn: the return hands out a definite error or a constant false verdict.
+func refusalReturn(ret *ssa.Return) bool {
+	for _, rv := range ret.Results {
+		if an.IsErrorType(rv.Type()) && (an.DefiniteError(rv) || an.ReturnNonNilGuarded(ret, rv)) {
+			return true
+		}
+		if b, ok := an.ConstBool(rv); ok && !b {
+			return true
+		}
+	}
+	return false
 }
 
 func runReferenceWins(c *core.Ctx, r *Roles, hs *hashSite, base string) {
@@ -670,102 +829,152 @@ func runReferenceWins(c *core.Ctx, r *Roles, hs *hashSite, base string) {
 	if cmpIf == nil {
 		return
 	}
-	// the grammar test of the reference and the parse of the same value
-	var refVal ssa.Value
-	var grammarIf *ssa.If
-	grammarTrue := 0
-	for _, b := range fn.Blocks {
-		ifi := an.BlockIf(b)
-		if ifi == nil {
-			continue
-		}
-		if call, trueSucc, ok := an.BoolCallTest(ifi); ok && an.IsMethod(call, "regexp", "Regexp", "MatchString") && an.IsGlobalLoad(call.Call.Args[0], r.TypesPath, "RefTagRE") {
-			grammarIf, grammarTrue, refVal = ifi, trueSucc, an.Origin(call.Call.Args[1])
+	parseOf := func(refVal ssa.Value) func(v ssa.Value) int8 {
+		// origins: 1 = parse of the reference, 2 = anything else (query parameter, constant)
+		return func(v ssa.Value) int8 {
+			o := an.Origin(v)
+			if pc, idx := an.CallOf(o); pc != nil && idx == 0 && an.IsFunc(pc, digestPkg, "Parse") && an.Origin(pc.Call.Args[0]) == refVal {
+				return 1
+			}
+			return 2
 		}
 	}
-	if grammarIf == nil {
+	report := func(bad bool) {
+		c.SetTags(append(siteTags(c, r, fn), "expected-digest")...)
+		c.Check(!bad, base+":reference-digest-wins", hs.from.Pos(), "on every path on which the reference is not a tag, the digest the body is compared with is the parse of the reference itself: %v — otherwise a query parameter can make a push under digest A store and acknowledge content that hashes to B", !bad)
+	}
+	// the grammar test of the reference and the parse of the same value, in the handler itself
+	if grammarIf, grammarTrue, refVal := grammarTest(r, fn); grammarIf != nil {
+		bad, _ := refWinsPaths(fn, []rwSink{{cmpIf, other}}, parseOf(refVal), nil,
+			func(s *rwState, from *ssa.BasicBlock, succ int) {
+				if an.BlockIf(from) == grammarIf {
+					s.nonTag = succ != grammarTrue
+				}
+			})
+		report(bad)
 		return
 	}
-	// origins: 1 = parse of the reference, 2 = anything else (query parameter, constant)
-	originID := func(v ssa.Value) int8 {
-		o := an.Origin(v)
-		if pc, idx := an.CallOf(o); pc != nil && idx == 0 && an.IsFunc(pc, digestPkg, "Parse") && an.Origin(pc.Call.Args[0]) == refVal {
+	// … or in a parsing helper of the module the handler calls
+	var hc *ssa.Call
+	var H *ssa.Function
+	var hIf *ssa.If
+	hTrue := 0
+	var hParam ssa.Value
+	an.Calls(fn, func(call ssa.CallInstruction) {
+		cc, ok := call.(*ssa.Call)
+		if !ok {
+			return
+		}
+		h := cc.Call.StaticCallee()
+		if h == nil || len(h.Blocks) == 0 || !strings.HasPrefix(core.FuncPkgPath(h), c.P.Module) {
+			return
+		}
+		if gi, gt, rv := grammarTest(r, h); gi != nil {
+			if _, isParam := rv.(*ssa.Parameter); isParam {
+				hc, H, hIf, hTrue, hParam = cc, h, gi, gt, rv
+			}
+		}
+	})
+	if hc == nil {
+		return
+	}
+	res := H.Signature.Results()
+	var rets []*ssa.Return
+	an.Instrs(H, func(in ssa.Instruction) {
+		if ret, ok := in.(*ssa.Return); ok && len(ret.Results) == res.Len() && !refusalReturn(ret) {
+			rets = append(rets, ret)
+		}
+	})
+	di := -1
+	for i := 0; i < res.Len() && di < 0; i++ {
+		if !isNamed(res.At(i).Type(), digestPkg, "Digest") {
+			continue
+		}
+		for _, ret := range rets {
+			for _, o := range an.Origins(ret.Results[i]) {
+				if parseOf(hParam)(o) == 1 {
+					di = i
+				}
+			}
+		}
+	}
+	if di < 0 {
+		return
+	}
+	var sinks []rwSink
+	for _, ret := range rets {
+		sinks = append(sinks, rwSink{ret, ret.Results[di]})
+	}
+	badH, nonTagAt := refWinsPaths(H, sinks, parseOf(hParam), nil,
+		func(s *rwState, from *ssa.BasicBlock, succ int) {
+			if an.BlockIf(from) == hIf {
+				s.nonTag = succ != hTrue
+			}
+		})
+	fromHelper := func(v ssa.Value) int8 {
+		if pc, idx := an.CallOf(an.Origin(v)); pc == hc && idx == di {
 			return 1
 		}
 		return 2
 	}
-	// tracked φs: those reachable from the compared operand
-	var phis []*ssa.Phi
-	var collect func(v ssa.Value)
-	collect = func(v ssa.Value) {
-		if p, ok := v.(*ssa.Phi); ok {
-			for _, q := range phis {
-				if q == p {
-					return
-				}
-			}
-			if len(phis) < 4 {
-				phis = append(phis, p)
-				for _, e := range p.Edges {
-					collect(e)
-				}
-			}
+	all := true
+	for _, o := range an.Origins(other) {
+		if fromHelper(o) != 1 {
+			all = false
 		}
 	}
-	collect(other)
-	phiIdx := func(v ssa.Value) int {
-		for i, p := range phis {
-			if ssa.Value(p) == v {
-				return i
+	if all {
+		report(badH)
+		return
+	}
+	// the handler chooses between the helper's digest and another one: ‘may be not a tag’ holds from the call until the
+	// ‘tag result != ""’ edge, where the tag result is a string result every ‘not a tag’ return leaves empty
+	ti := -1
+	for i := 0; i < res.Len() && ti < 0; i++ {
+		if bt, ok := res.At(i).Type().Underlying().(*types.Basic); !ok || bt.Kind() != types.String {
+			continue
+		}
+		ok := true
+		for _, ret := range rets {
+			if !nonTagAt[ret] {
+				continue
+			}
+			if s0, isS := an.ConstString(ret.Results[i]); !isS || s0 != "" {
+				ok = false
 			}
 		}
-		return -1
+		if ok {
+			ti = i
+		}
 	}
-	bad := false
-	an.Paths(an.PathSpec[rwState]{Fn: fn, Init: rwState{},
-		Instr: func(s rwState, in ssa.Instruction) []rwState {
-			if in == ssa.Instruction(cmpIf) && s.nonTag {
-				var cur int8
-				if i := phiIdx(other); i >= 0 {
-					cur = s.phis[i]
-				} else {
-					cur = originID(other)
-				}
-				if cur != 1 {
-					bad = true
-				}
+	isTagResult := func(v ssa.Value) bool {
+		pc, idx := an.CallOf(an.Origin(v))
+		return ti >= 0 && pc == hc && idx == ti
+	}
+	badF, _ := refWinsPaths(fn, []rwSink{{cmpIf, other}}, fromHelper,
+		func(s *rwState, in ssa.Instruction) {
+			if in == ssa.Instruction(hc) {
+				s.nonTag = true
 			}
-			return []rwState{s}
 		},
-		Edge: func(s rwState, from *ssa.BasicBlock, succ int) (rwState, bool) {
-			if an.BlockIf(from) == grammarIf {
-				s.nonTag = succ != grammarTrue
+		func(s *rwState, from *ssa.BasicBlock, succ int) {
+			ifi := an.BlockIf(from)
+			if ifi == nil {
+				return
 			}
-			tgt := from.Succs[succ]
-			predIdx := -1
-			for i, p := range tgt.Preds {
-				if p == from {
-					predIdx = i
-				}
+			x, y, op, ok := an.CmpTest(ifi)
+			if !ok || (op != token.EQL && op != token.NEQ) {
+				return
 			}
-			if predIdx >= 0 {
-				old := s
-				for i, p := range phis {
-					if p.Block() != tgt {
-						continue
-					}
-					e := p.Edges[predIdx]
-					if j := phiIdx(e); j >= 0 {
-						s.phis[i] = old.phis[j]
-					} else {
-						s.phis[i] = originID(e)
-					}
-				}
+			if s0, isS := an.ConstString(y); !isS || s0 != "" || !isTagResult(x) {
+				return
 			}
-			return s, true
-		}})
-	c.SetTags(append(siteTags(c, r, fn), "expected-digest")...)
-	c.Check(!bad, base+":reference-digest-wins", hs.from.Pos(), "on every path on which the reference is not a tag, the digest the body is compared with is the parse of the reference itself: %v — otherwise a query parameter can make a push under digest A store and acknowledge content that hashes to B", !bad)
+			// the edge on which the tag result is not empty: a tag
+			if (op == token.NEQ && succ == 0) || (op == token.EQL && succ == 1) {
+				s.nonTag = false
+			}
+		})
+	report(badH || badF)
 }
 
 // hashingHelper: call is a static call of a module function one of whose results is, on every non-error
